@@ -47,24 +47,54 @@ def _(c):
     c.loop(1).modifies = ()
 
 
+LEVEL_FLAGS = {"level": (False, False), "level_rtl": (True, False), "zigzag": (False, True), "zigzag_rtl": (True, True)}
+
+
+def order_post(x, s, m, add_self, callee):
+    """x.r is the documented order `m` of the branch below s (with s itself first -- last for post-order -- if add_self)."""
+    h0 = x.h0
+    import contracts.vocab as V
+
+    if m in LEVEL_FLAGS and V.RT_EVAL is not None:
+        E = V.RT_EVAL
+        Kids = L.level_spec(h0)[0]
+        kids_of = E.seq_fn(Kids.name())
+        rev, tog = LEVEL_FLAGS[m]
+        lvl, out = list(E.value(Kids(s))), ([E.value(s)] if add_self else [])
+        while lvl:
+            out += list(reversed(lvl)) if rev else lvl
+            rev = (not rev) if tog else rev
+            lvl = [c for n in lvl for c in kids_of(n)]
+        got = E.value(x.r)
+        return z3.BoolVal(len(got) == len(out) and all(a is b for a, b in zip(got, out)))
+    side = []
+    if m in ("pre", "post"):
+        Pre, _, Post, _ = L.pre_post(h0)
+        body = Pre(s) if m == "pre" else Post(s)
+    else:
+        Kids, CML, Lvl, RevAt, LOP = L.level_spec(h0)
+        rev, tog = (z3.BoolVal(b) for b in LEVEL_FLAGS[m])
+        J = callee_wit(x, callee, "lastJ", (L.I, L.I))(0)
+        j = L.fresh("j", L.I)
+        body = LOP(s, J, rev, tog)
+        side = [J >= 0, L.Len(Lvl(s, J)) == 0, z3.ForAll([j], Implies(And(0 <= j, j < J), L.Len(Lvl(s, j)) > 0), patterns=[Lvl(s, j)])]
+    if add_self:
+        exp = L.App(body, L.Single(s)) if m == "post" else L.App(L.Single(s), body)
+    else:
+        exp = body
+    return And(L.SeqEq(x.r, exp), *side)
+
+
 @contract(NQ + "iterator", props=("C06",))
 def _(c):
-    c.param("self", "node").param("method", "enum:pre", "enum:post").param("add_self", "true", "false")
+    c.param("self", "node").param("method", "enum:pre", "enum:post", "enum:level", "enum:level_rtl", "enum:zigzag", "enum:zigzag_rtl").param("add_self", "true", "false")
     c.result_tag = "pseq"
     c.is_generator = True
     c.pure()
     c.requires("wf", lambda x: And(wf0(x), self_in_P(x)))
 
     def post(x):
-        Pre, _, Post, _ = L.pre_post(x.h0)
-        s = x.a.self
-        m = x.a.sv("method").z
-        body = Pre(s) if m == "pre" else Post(s)
-        if z3.is_true(x.a.add_self):
-            exp = L.App(L.Single(s), body) if m == "pre" else L.App(body, L.Single(s))
-        else:
-            exp = body
-        return L.SeqEq(x.r, exp)
+        return order_post(x, x.a.self, x.a.sv("method").z, z3.is_true(x.a.add_self), "Node._iter_level")
 
     c.ensures("yields the documented order; add_self puts the start node first (last for post-order)", post)
     c.ensures(MEMBERS + " (or the start node itself)", lambda x: seq_members(x, x.r, also_self=z3.is_true(x.a.add_self)))
@@ -72,22 +102,14 @@ def _(c):
 
 @contract("nutree.typed_tree.TypedNode.iterator", props=("C06",))
 def _(c):
-    c.param("self", "node").param("method", "enum:pre", "enum:post").param("add_self", "true", "false")
+    c.param("self", "node").param("method", "enum:pre", "enum:post", "enum:level", "enum:level_rtl", "enum:zigzag", "enum:zigzag_rtl").param("add_self", "true", "false")
     c.families = ("typed",)
     c.result_tag = "pseq"
     c.pure()
     c.requires("wf", lambda x: And(wf0(x), self_in_P(x)))
 
     def post(x):
-        Pre, _, Post, _ = L.pre_post(x.h0)
-        s = x.a.self
-        m = x.a.sv("method").z
-        body = Pre(s) if m == "pre" else Post(s)
-        if z3.is_true(x.a.add_self):
-            exp = L.App(L.Single(s), body) if m == "pre" else L.App(body, L.Single(s))
-        else:
-            exp = body
-        return L.SeqEq(x.r, exp)
+        return order_post(x, x.a.self, x.a.sv("method").z, z3.is_true(x.a.add_self), "Node.iterator")
 
     c.ensures("same order as the untyped iterator", post)
     c.ensures(MEMBERS + " (or the start node itself)", lambda x: seq_members(x, x.r, also_self=z3.is_true(x.a.add_self)))
@@ -108,18 +130,16 @@ def _(c):
 @contract("nutree.tree.Tree.iterator", props=("C06",))
 def _(c):
     """`for n in tree` / tree.iterator(method): the root's iterator without the root itself."""
-    c.param("self", "tree").param("method", "enum:pre", "enum:post")
+    c.param("self", "tree").param("method", "enum:pre", "enum:post", "enum:level", "enum:level_rtl", "enum:zigzag", "enum:zigzag_rtl")
     c.families = ("plain", "typed")
     c.result_tag = "pseq"
     c.pure()
     c.requires("wf", lambda x: wf0(x))
 
     def post(x):
-        Pre, _, Post, _ = L.pre_post(x.h0)
-        root = x.h0._root(x.a.self)
-        return L.SeqEq(x.r, Pre(root) if x.a.sv("method").z == "pre" else Post(root))
+        return order_post(x, x.h0._root(x.a.self), x.a.sv("method").z, False, "Node.iterator")
 
-    c.ensures("yields Pre(root) / Post(root): every node once, the invisible root never", post)
+    c.ensures("yields the documented order of the whole tree: every node once, the invisible root never", post)
 
     def members(x):
         j = L.fresh("j", L.I)
@@ -225,3 +245,90 @@ def _(c):
 
     lp.invariant = inv
     lp.modifies = ()
+
+
+# ------------------------------------------------------------------ breadth-first orders
+def rep(h, l, S):
+    """list object l (content in heap h) holds the sequence S; None stands for the empty sequence"""
+    i = L.fresh("i", L.I)
+    return If(l == LNONE, L.Len(S) == 0, And(h.llen(l) == L.Len(S), z3.ForAll([i], Implies(And(0 <= i, i < L.Len(S)), h.litem(l, i) == L.At(S, i)), patterns=[h.litem(l, i)])))
+
+
+def members_of(x, S):
+    j = L.fresh("j", L.I)
+    return z3.ForAll([j], Implies(And(0 <= j, j < L.Len(S)), x.h0.mem(x.T, L.At(S, j))), patterns=[L.At(S, j)])
+
+
+@contract(NQ + "_iter_level", props=("C06",))
+def _(c):
+    """Level order, level by level: level j (Lvl(self, j)) as a whole, reversed when RevAt(revert, toggle, j); stops at
+    the first empty level J.  The result is LOP(self, J, revert, toggle) (logic.level_spec)."""
+    c.param("self", "node").param("revert", "true", "false").param("toggle", "true", "false")
+    c.families = ("plain",)
+    c.result_tag = "pseq"
+    c.is_generator = True
+    c.pure()
+    c.modifies("llen", "litem", "lalloc")
+    c.requires("wf, self in P(T)", lambda x: And(wf0(x), self_in_P(x)))
+
+    def post(x):
+        h0, s = x.h0, x.a.self
+        Kids, CML, Lvl, RevAt, LOP = L.level_spec(h0)
+        import contracts.vocab as V
+
+        if V.RT_EVAL is not None:
+            E = V.RT_EVAL
+            kids_of = E.seq_fn(Kids.name())  # the interpretation of Kids on concrete nodes
+            lvl, out, rev = list(E.value(Kids(s))), [], z3.is_true(x.a.revert)
+            while lvl:
+                out += list(reversed(lvl)) if rev else lvl
+                if z3.is_true(x.a.toggle):
+                    rev = not rev
+                lvl = [c for n in lvl for c in kids_of(n)]
+            got = E.value(x.r)
+            return z3.BoolVal(len(got) == len(out) and all(a is b for a, b in zip(got, out)))
+        J = x.p.ghost.get("loopghost", {}).get("j") if getattr(x, "p", None) is not None else None
+        if J is None:
+            J = wit(x, "lastJ", (L.I, L.I))(0)
+        j = L.fresh("j", L.I)
+        return And(J >= 0, L.SeqEq(x.r, LOP(s, J, x.a.revert, x.a.toggle)), L.Len(Lvl(s, J)) == 0,
+                   z3.ForAll([j], Implies(And(0 <= j, j < J), L.Len(Lvl(s, j)) > 0), patterns=[Lvl(s, j)]))
+
+    c.ensures("yields the levels below self one after the other (level j reversed iff RevAt(revert, toggle, j)) up to the first empty level", post)
+    c.ensures("pre-existing lists are unchanged", lambda x: unchanged_lists(x))
+    c.ensures(MEMBERS, lambda x: seq_members(x, x.r))
+    w = c.loop(1)
+    w.ghost["j"] = (lambda x: z3.IntVal(0), lambda x: x.g.j + 1)
+
+    def inv_while(x):
+        h0, h, s = x.h0, x.h, x.a.self
+        Kids, CML, Lvl, RevAt, LOP = L.level_spec(h0)
+        j = x.g.j
+        jj = L.fresh("jj", L.I)
+        S = Lvl(s, j)
+        return And(j >= 0, L.SeqEq(x.p.ghost["yielded"], LOP(s, j, x.a.revert, x.a.toggle)), x.v.revert == RevAt(x.a.revert, x.a.toggle, j),
+                   rep(h, x.v.children, S), members_of(x, S), unchanged_lists(x), seq_members(x, x.p.ghost["yielded"]),
+                   z3.ForAll([jj], Implies(And(0 <= jj, jj < j), L.Len(Lvl(s, jj)) > 0), patterns=[Lvl(s, jj)]))
+
+    w.invariant = inv_while
+    w.modifies = ("llen", "litem", "lalloc")
+    f = c.loop(2)
+
+    def inv_for(x):
+        h0, h, s = x.h0, x.h, x.a.self
+        Kids, CML, Lvl, RevAt, LOP = L.level_spec(h0)
+        S = Lvl(s, x.g.j) if hasattr(x.g, "j") else Lvl(s, x.p.ghost["loopghost"]["j"])
+        nl = x.v.next_level
+        return And(nl != LNONE, Not(h0.lalloc(nl)), h.lalloc(nl), nl != x.v.children, rep(h, nl, CML(S, x.k)), members_of(x, CML(S, x.k)),
+                   rep(h, x.v.children, S), x.v.children != LNONE, unchanged_lists(x))
+
+    f.invariant = inv_for
+    f.modifies = ("llen", "litem")
+
+
+for _w in ("_iter_level_rtl", "_iter_zigzag", "_iter_zigzag_rtl"):
+    @contract(NQ + _w)
+    def _(c):
+        """one-line delegations to _iter_level(revert=, toggle=): executed in place"""
+        c.param("self", "node")
+        c.inline = True
